@@ -208,6 +208,8 @@ def resolvePath (heap : List Cell) (h : HeapId) (gp : Bytes) : Out (Option Bytes
         | some l => .val (some (cstr (dir ++ (if l = 47 then [] else [47]) ++ gp)))
       else .val none
 
+def hasBit (v mask : Nat) : Bool := v &&& mask != 0
+
 /-- the guest path argument: `pathLength` bytes at `pathPointer` (none read when the length is 0) -/
 def guestPath (m : Mem) (ptr len : Nat) : Out Bytes := m.read ptr len
 
@@ -605,91 +607,125 @@ def stepRO {σ} (cfg : Cfg) (H : Host σ) (abi : Abi) (s : St σ) (c : ROCall) :
       | (h', _) => retUnmodelled w h'          -- the link text written to the guest is host data
   | .nosys _ _ => ret w s.host NOSYS
 
+/-- `closedir(descriptor.dir)` or `close(descriptor.fd)` of `wasiFileDescriptorClose` -/
+def closeHost {σ} (H : Host σ) (h : σ) (d : Desc) : σ × R Unit :=
+  match d.dir with
+  | some dh => H.closedir h dh
+  | none => if d.fd ≥ 0 then H.close h d.fd else (h, .ok ())
+
 /-- `wasiFileDescriptorClose` + `fd_close` -/
 def fdClose {σ} (cfg : Cfg) (H : Host σ) (s : St σ) (n : Nat) : Out (St σ × Res) :=
   match getDesc cfg s n with
   | none => .val (s, .errno BADF [])
   | some d =>
     -- closedir / close; a failure returns false before anything is freed or reset
-    let hostR : σ × R Unit :=
-      match d.dir with
-      | some dh => H.closedir s.host dh
-      | none => if d.fd ≥ 0 then H.close s.host d.fd else (s.host, .ok ())
-    match hostR with
+    match closeHost H s.host d with
     | (h', .unmodelled) => .val ({ s with host := h' }, .unmodelled)
     | (h', .err _) => .val ({ s with host := h' }, .errno BADF [])
-    | (h', .ok _) => do
-      let heap' ← match d.path with
-        | none => .val s.heap
-        | some hp => freeHeap s.heap hp
-      let s1 : St σ := { s with host := h', heap := heap' }
-      let s2 := setDesc s1 n fun e =>
-        { fd := -1, dir := none, path := if cfg.closeClearsPath then none else e.path }
-      .val (s2, .errno 0 [])
+    | (h', .ok _) =>
+      match d.path with
+      | none =>
+        .val (setDesc { s with host := h' } n fun e =>
+          { fd := -1, dir := none, path := if cfg.closeClearsPath then none else e.path }, .errno 0 [])
+      | some hp =>
+        match freeHeap s.heap hp with
+        | .val heap' =>
+          .val (setDesc { s with host := h', heap := heap' } n fun e =>
+            { fd := -1, dir := none, path := if cfg.closeClearsPath then none else e.path }, .errno 0 [])
+        | .ub k => .ub k
+        | .trap t => .trap t
+        | .oof => .oof
+
+/-- the lazy `opendir` of `wasiFDReaddir`: the state with the DIR registered, or the early return -/
+def readdirOpen {σ} (cfg : Cfg) (H : Host σ) (s : St σ) (n : Nat) (d : Desc) (cookie : Nat) :
+    Out (Except (St σ × Res) (St σ)) :=
+  match d.dir with
+  | some _ => .val (.ok s)
+  | none =>
+    if cfg.readdirNullPath.isSome ∧ d.path = none then
+      .val (.error (s, .errno (cfg.readdirNullPath.getD 0) []))
+    else
+      -- `strcpy(nativePath, descriptor.path)` comes before the cookie test
+      match derefPath s.heap d.path with
+      | .ub k => .ub k
+      | .trap t => .trap t
+      | .oof => .oof
+      | .val p =>
+        if cookie ≠ 0 then .val (.error (s, .errno BADF [])) else
+        match H.opendir s.host p with
+        | (h', .unmodelled) => .val (.error ({ s with host := h' }, .unmodelled))
+        | (h', .err e) => .val (.error ({ s with host := h' }, .errno (wasiErrno e) []))
+        | (h', .ok dh) => .val (.ok (setDesc { s with host := h' } n fun e => { e with dir := some dh }))
 
 /-- `wasiFDReaddir` up to the listing loop -/
 def fdReaddir {σ} (cfg : Cfg) (H : Host σ) (s : St σ) (n _buf len cookie used : Nat) : Out (St σ × Res) :=
-  let w : MW := ⟨s.mem, []⟩
   match getDesc cfg s n with
   | none => .val (s, .errno BADF [])
-  | some d => do
-    -- lazily open the directory stream
-    let opened : Except (St σ × Res) (St σ) ←
-      (match d.dir with
-       | some _ => .val (.ok s)
-       | none =>
-         if cfg.readdirNullPath.isSome ∧ d.path = none then .val (.error (s, .errno (cfg.readdirNullPath.getD 0) [])) else do
-         let p ← derefPath s.heap d.path
-         if cookie ≠ 0 then .val (.error (s, .errno BADF [])) else
-         match H.opendir s.host p with
-         | (h', .unmodelled) => .val (.error ({ s with host := h' }, .unmodelled))
-         | (h', .err e) => .val (.error ({ s with host := h' }, .errno (wasiErrno e) []))
-         | (h', .ok dh) => .val (.ok (setDesc { s with host := h' } n fun e => { e with dir := some dh })) : Out _)
-    match opened with
-    | .error r => .val r
-    | .ok s1 => do
-      let w1 ← w.store used (leBytes 4 0)
-      if len = 0 then do
-        let w2 ← w1.store used (leBytes 4 0)
-        .val ({ s1 with mem := w2.mem }, .errno 0 w2.log)
-      else .val ({ s1 with mem := w1.mem }, .unmodelled)      -- the listing itself: C14
+  | some d =>
+    match readdirOpen cfg H s n d cookie with
+    | .ub k => .ub k
+    | .trap t => .trap t
+    | .oof => .oof
+    | .val (.error r) => .val r
+    | .val (.ok s1) =>
+      let w : MW := ⟨s1.mem, []⟩
+      match w.store used (leBytes 4 0) with
+      | .ub k => .ub k
+      | .trap t => .trap t
+      | .oof => .oof
+      | .val w1 =>
+        if len = 0 then
+          match w1.store used (leBytes 4 0) with
+          | .ub k => .ub k
+          | .trap t => .trap t
+          | .oof => .oof
+          | .val w2 => .val ({ s1 with mem := w2.mem }, .errno 0 w2.log)
+        else .val ({ s1 with mem := w1.mem }, .unmodelled)      -- the listing itself: C14
 
-def hasBit (v mask : Nat) : Bool := v &&& mask != 0
+
+/-- native flags of `wasiPathOpen` -/
+def openFlags (oflags fdflags : Nat) : List OFlag :=
+  (Gen.Wasi.oflagsMap.filter fun e => hasBit oflags e.1).map (·.2)
+    ++ (Gen.Wasi.fdflagsMap.filter fun e => hasBit fdflags e.1).map (·.2)
+
+def openAcc (rightsBase : Nat) : Acc :=
+  Gen.Wasi.accessMode (hasBit rightsBase Gen.Wasi.writeRightsMask) (hasBit rightsBase Gen.Wasi.readRightsMask)
+
+/-- the `O_DIRECTORY` emulation by `fstat`: `some r` = early return -/
+def directoryCheck {σ} (H : Host σ) (h : σ) (fl : List OFlag) (nfd : Nat) : Option Res :=
+  if Gen.Wasi.directoryEmulation ∧ fl.contains .directory then
+    match H.fstat h nfd with
+    | .unmodelled => some .unmodelled
+    | .err e => some (.errno (wasiErrno e) [])
+    | .ok st => if st.isDir then none else some (.errno NOTDIR [])
+  else none
 
 /-- `wasiPathOpen` -/
 def pathOpen {σ} (cfg : Cfg) (H : Host σ) (s : St σ)
     (dirfd _dirflags pathPtr pathLen oflags rightsBase _rightsInh fdflags fdPtr : Nat) : Out (St σ × Res) :=
   let w : MW := ⟨s.mem, []⟩
-  do
-  match ← pathPrologue cfg s w dirfd pathPtr pathLen with
-  | .error e => .val (s, .errno e [])
-  | .ok p =>
-    let isRead := hasBit rightsBase Gen.Wasi.readRightsMask
-    let isWrite := hasBit rightsBase Gen.Wasi.writeRightsMask
-    let acc := Gen.Wasi.accessMode isWrite isRead
-    let fl := (Gen.Wasi.oflagsMap.filter fun e => hasBit oflags e.1).map (·.2)
-      ++ (Gen.Wasi.fdflagsMap.filter fun e => hasBit fdflags e.1).map (·.2)
-    match H.openAt s.host p acc fl with
+  match pathPrologue cfg s w dirfd pathPtr pathLen with
+  | .ub k => .ub k
+  | .trap t => .trap t
+  | .oof => .oof
+  | .val (.error e) => .val (s, .errno e [])
+  | .val (.ok p) =>
+    let fl := openFlags oflags fdflags
+    match H.openAt s.host p (openAcc rightsBase) fl with
     | (h', .unmodelled) => .val ({ s with host := h' }, .unmodelled)
     | (h', .err e) => .val ({ s with host := h' }, .errno (wasiErrno e) [])
     | (h', .ok nfd) =>
-      let s1 : St σ := { s with host := h' }
-      -- O_DIRECTORY emulation by fstat
-      let emu : Option Res :=
-        if Gen.Wasi.directoryEmulation ∧ fl.contains .directory then
-          match H.fstat h' nfd with
-          | .unmodelled => some .unmodelled
-          | .err e => some (.errno (wasiErrno e) [])
-          | .ok st => if st.isDir then none else some (.errno NOTDIR [])
-        else none
-      match emu with
-      | some r => .val (s1, r)
+      match directoryCheck H h' fl nfd with
+      | some r => .val ({ s with host := h' }, r)
       | none =>
-        match tableAdd s1 nfd p with
-        | none => .val (s1, .errno BADF [])
-        | some (s2, idx) => do
-          let w' ← w.store fdPtr (leBytes 4 idx)
-          .val ({ s2 with mem := w'.mem }, .errno 0 w'.log)
+        match tableAdd { s with host := h' } nfd p with
+        | none => .val ({ s with host := h' }, .errno BADF [])
+        | some (s2, idx) =>
+          match w.store fdPtr (leBytes 4 idx) with
+          | .ub k => .ub k
+          | .trap t => .trap t
+          | .oof => .oof
+          | .val w' => .val ({ s2 with mem := w'.mem }, .errno 0 w'.log)
 
 /-- one WASI call -/
 def step {σ} (cfg : Cfg) (H : Host σ) (abi : Abi) (s : St σ) : Call → Out (St σ × Res)
